@@ -75,5 +75,20 @@ if __name__ == "__main__":
                         f["description"] = f"fixed: property={f['property']} {v} " + f.get("description", "")
                     print("marked fixed:", k)
         json.dump(d, open(kf, "w"), indent=1)
+    elif cmd == "all":
+        # python3 -m vf.integrate all ALL [seed]  — every claimed check once, 4 at a time
+        from concurrent.futures import ThreadPoolExecutor
+        seed = sys.argv[3] if len(sys.argv) > 3 else "0"
+        pids = sorted(json.load(open(os.path.join(ROOT, "vf", "claims.json"))))
+        def one(p):
+            env = dict(os.environ, VERIF_SEED=seed)
+            r = subprocess.run(["./check", p], cwd=ROOT, env=env, capture_output=True, text=True)
+            lines = r.stdout.strip().splitlines()
+            return p, r.returncode, (lines[-1] if lines else r.stderr[-200:]), [l for l in lines if l.startswith("VIOLATION")]
+        with ThreadPoolExecutor(4) as ex:
+            for p, rc, last, vio in ex.map(one, pids):
+                print(("OK  " if rc == 0 else "FAIL") + f" {p} exit={rc} :: {last[:170]}")
+                for v in vio[:2]:
+                    print("     ", v)
     elif cmd == "seeds":
         seeds(pid, [int(x) for x in sys.argv[3:]] or [0, 1, 2, 12345])
